@@ -165,6 +165,11 @@ def check(ctx, mod, ref, buf, want_text=True, sample=False):
             ctx.fail("C08:construct_raises.%s" % cls, "SCSICheckCondition(%s) raised %s: %s" % (bytes(buf)[:18].hex(), type(e).__name__, e), wit, exc=e)
             return
         ctx.count("constructed")
+        # the condition is an error object like any other: true in a boolean context (`err = e ... if err:`; futures and loggers test
+        # it the same way)
+        if not exc:
+            ctx.fail("C08:condition_is_false.%s" % cls, "bool(SCSICheckCondition(%s)) is False: code that tests the error object before reporting it drops it" % bytes(buf)[:18].hex(), wit)
+            return
         # a transport may reuse its sense buffer: what the condition reports is what the buffer held when it was raised
         if isinstance(mutable, (bytearray, list)) or type(mutable).__name__.startswith(("c_ubyte_Array", "c_byte_Array")):
             for i in range(len(mutable)):
